@@ -20,7 +20,7 @@ RULE = ('Hypothesis point sets (2-40 points) from labelled families: clusters, s
         'or a group straddling the seam or within 5 deg of a pole.')
 ASSUMPTIONS = ['chunksize >= 4 x linking length is enforced by spheregroup itself; the generator also bounds the grid to <= 2e4 cells',
                'separations within 1e-7 relative of the linking length may link or not',
-               '|Dec| <= 89.9999, RA in [0,360)', 'linking lengths from 1e-7 deg (sub-milliarcsecond) up; the reference separations are exact to ~1e-16 rad, i.e. 1e-7 relative at 1e-7 deg, inside the band']
+               '|Dec| <= 90 including points exactly on a pole (families pole-exact / pole-near), RA in [0,360)', 'linking lengths from 1e-7 deg (sub-milliarcsecond) up; the reference separations are exact to ~1e-16 rad, i.e. 1e-7 relative at 1e-7 deg, inside the band']
 
 
 def components(adj):
@@ -121,7 +121,7 @@ def case_strategy(draw):
         pts = draw(randomwalk(L))
     else:
         pts = draw(G.point_sets(L, nmin=2, nmax=40, two_lists=False,
-                                families=['cluster', 'seam', 'seam', 'polar', 'pole-exact', 'allsky', 'lattice', 'chain', 'chain', 'chain']))
+                                families=['cluster', 'seam', 'seam', 'polar', 'pole-exact', 'pole-near', 'allsky', 'lattice', 'chain', 'chain', 'chain']))
     if pts['family'] == 'allsky':
         L = max(L, 0.5)
     if draw(st.integers(0, 12)) == 0:
